@@ -45,10 +45,26 @@ TEXT = {
          "Trusted: httpx's wire view of a headers dict (described, validated by sampling); refresh callbacks pure."),
  "C18": ("Full. Lean models of str.splitlines, httpx's LineDecoder, the SSE/NDJSON helpers and incremental UTF-8 decoding: for EVERY chunking the helpers yield what the unsplit stream yields (simulation relation between LineDecoder and a char-level automaton), one event per blank-line-terminated block, data joined by newlines, comments ignored, final unterminated event delivered; byte-level chunk independence for well-formed UTF-8. Tie: real httpx.Response over an async byte-chunk iterator, every split-point subset of short streams.",
          "Trusted: the descriptions of codecs/httpx/str.splitlines/str.strip (validated on every run); ill-formed UTF-8, json.loads and SSE retry are not modelled."),
- "C19": ("Partial. Lean: status-key typing counterexample (integer keys drop the operation), permutation invariance of the parse on the proved fragment with counterexample for prefix-named schemas. Oracle: metamorphic end-to-end comparison of JSON / YAML block / YAML flow / integer-status-key renderings (byte-identical trees) and of random permutations of schemas, paths and properties (same manifest).",
+ "C19": ("Partial. Lean: status-key typing (integer keys: repaired and proved; float/bool/null keys: counterexample), permutation invariance of the parse on the proved fragment with counterexample for prefix-named schemas. Oracle: metamorphic end-to-end comparison of JSON / YAML block / YAML flow / integer-status-key renderings (byte-identical trees) and of random permutations of schemas, paths and properties (same manifest).",
          "Trusted: PyYAML is not modelled."),
  "C20": ("Lean theorems over a hand model of NameSanitizer, the enum member-name function and the five suffix loops: identifier validity for every input string (class names, enum members: unconditional; method/module names: exactly for inputs with an ASCII alphanumeric, with machine-checked counterexamples outside), termination + pairwise distinctness + nothing-dropped for every namespace (pigeonhole).",
          "Trusted: Lean kernel + 3 standard axioms; the hand model (exhaustive-short + random differential correspondence on every run); CPython's non-ASCII case/word tables are passed to the model by the harness."),
+}
+
+# additions of the third session (appended to the level text)
+ADD = {
+ "C01": " Third session: Lean models of the schema type resolver (every unquoted name of a resolved annotation is a builtin or was requested through add_import - for every schema tree, registry and current file - except two bare returns kept as counterexamples; a quoted forward reference without import only inside models/<stem>.py, F60 repaired), of DataclassGenerator's class body (no field without a default after one with a default; enum defaults looked up by value, F53 repaired) and of ClientVisitor's mock class (__init__ never empty, F31 repaired); alias coverage proved at full strength after the repair of F3.",
+ "C02": " Third session: the annotation level (resolved type optional iff not required; union members complete and distinct), the post-parse extraction passes (property keys preserved, extracted enums / array items faithful, a named schema with a property is always a dataclass) and the dataclass level (one field per property, no default iff required) are modelled and proved for every input of those models.",
+ "C04": " Third session: loader model - an operation's parameters are the path-level ones followed by its own, one per node, parsed with its own id.",
+ "C05": " Third session: declared_2xx_returns proved at full strength (F58 repaired: Union dispatch included); loader model - content keys preserved, stream flag exact and independent of the content mapping's order (STREAM_FORMATS regenerated from source).",
+ "C06": " Third session: loader model - for every kept operation the parsed status codes are exactly the keys the responses are declared under, also through $ref into components.responses; a declared 1xx/3xx status raises the base class (F3 repaired).",
+ "C07": " Third session: status_key_typing proved for every document with string / integer status keys (F16 repaired); Lean model of ClientVisitor (one APIClient property per tag group, properties = the emitter's tag clients); reachable_through_apiclient_partial composes the parser, the emitter's grouping / de-duplication and the client visitor in one theorem; the e2e oracle compares method names with the names the model derives for the selected strategy.",
+ "C09": " Third session: url_vars_order_independent (F18 repaired) and force tree = diff tree on the former witness (F19 repaired: one evaluation per emitter).",
+ "C11": " Third session: is_shared_core_complete - a core directory outside the package of the client being generated is treated as shared at every depth (F22 repaired); no recorded finding is left for this property.",
+ "C13": " Third session: the three top-level classes (APIClient, APIClientProtocol, MockAPIClient) as skeletons - same property names in the same order from the same tag tuples; the mocks emitter's own tuples are the recorded difference (F23).",
+ "C15": " Third session: the string-default sink of dataclass fields is one literal for every string and evaluates to the default exactly for strings inside the BMP.",
+ "C19": " Third session: primary_response_key_order_invariant (F57 repaired: both copies of the primary-response selection are invariant under permutation of the responses mapping), status keys quoted or not (F16 repaired), order of an object's properties / required list irrelevant for the generated class (Dc model), one operation is parsed locally (components as lookup tables). The metamorphic oracle permutes the key order of every mapping and adds a YAML rendering with merge keys.",
+ "C20": " Third session: class_name_valid for every input (F28 repaired); names invented by the inline-extraction passes are fresh and pairwise distinct; injectivity / collision theorems for promoted response / parameter schema names; tag attribute names of APIClient (valid identifiers for tags with an ASCII alphanumeric, never `config`; collisions with APIClient's own members recorded as F64).",
 }
 
 claimed = [p["id"] for p in props if p["id"] in index and os.path.exists(os.path.join(V, "vf", "props", p["id"] + ".py"))
@@ -59,6 +75,7 @@ if len(sys.argv) > 1:
 checks = []
 for pid in claimed:
     text, note = TEXT[pid]
+    text = text + ADD.get(pid, "")
     checks.append({
         "property_id": pid, "quick_cmd": f"./check {pid} --tier quick", "thorough_cmd": f"./check {pid} --tier thorough",
         "evidence_file": f"evidence/{pid}.json", "replay_cmd_template": f"./check {pid} --replay {{path}}", "engine": "lean-pog",
